@@ -775,7 +775,7 @@ variable (S : Spec) (V : Env) (nmAutosar : Nat)
 /-- `merge_element` on the roots, as `load_buffer` calls it (`fid` = id of the new file) -/
 def mergeRes (m : Model) (fid : Nat) (name : Bytes) (kids : Items) (st : PState) : Items × Option MergeErr :=
   mergeElement S V (fun g => ((m.files ++ [({ id := fid, name := name, version := st.ver, standalone := st.standalone } : File)]).find?
-      (·.id == g)).map (·.version)) fid st.ver (kids.size + m.rootKids.size + 2) m.rootHdr m.rootKids (m.files.map (·.id)) kids
+      (·.id == g)).map (·.version)) fid st.ver (kids.size + m.rootKids.size + 2) m.rootHdr m.rootKids m.rootHdr.files kids
 
 /-- the merged root before the renumbering -/
 def mergeRoot1 (m : Model) (fid : Nat) (r : Items) : Items :=
@@ -836,17 +836,6 @@ theorem mergeRoot2_eq (w : World) (m : Model) (name : Bytes) (kids : Items) (st 
         (newIds w.nextId (mergeRoot1 m w.nextFile (mergeRes S V m w.nextFile name kids st).1)) (mergeRes S V m w.nextFile name kids st).1) .nil :=
   ⟨_, rfl, rfl, rfl⟩
 
-/-- the hypotheses of the C10 part: the sub-elements of the root are consistent with the set of ALL files of the model, and
-every file of the model is in the local set of the root (or is the new file) -/
-structure MergeFiles (m : Model) (fid : Nat) : Prop where
-  kids : FilesOk (m.files.map (·.id)) m.rootKids
-  root : ∀ g ∈ m.files.map (·.id), g ∈ m.rootHdr.files ∨ g = fid
-
-/-- sufficient: the local file set of the root is the set of the model's files -/
-theorem MergeFiles.of_eq (m : Model) (fid : Nat) (hm : m.filesOk) (h : ∀ g, g ∈ m.rootHdr.files ↔ g ∈ m.files.map (·.id)) :
-    MergeFiles m fid :=
-  ⟨FilesOk_mono _ _ _ (fun g hg => (h g).mp hg) hm, fun g hg => Or.inl ((h g).mpr hg)⟩
-
 section
 variable (w : World) (k : Nat) (m : Model) (name : Bytes) (strict : Bool) (buf : Bytes) (h : Hdr) (kids : Items) (st : PState)
   (hr : runParser S V strict buf w.nextId nmAutosar = (.ok (h, kids), st))
@@ -859,7 +848,10 @@ theorem mergeRoot2_wfM (hm : m.wfM) : (m.setRoot (mergeRoot2 S V w m name kids s
   apply renumItems_wf
   exact ⟨rfl, mergeElement_wf S V _ _ _ _ _ _ _ _ _ hm hlab.wf, trivial⟩
 
-theorem mergeRoot2_filesOk (hm : m.filesOk) (hn : m.rootKids.ids.Nodup) (hf : MergeFiles m w.nextFile)
+/-- C10 for the merged tree: `merge_element` is called with the file set of the ROOT ELEMENT (since the repair of
+c10:merge-restricts-to-all-model-files; before it was called with all files of the model and the statement needed the
+extra hypothesis that the root carries every file of the model), so `m.filesOk` is all that is needed of the file sets -/
+theorem mergeRoot2_filesOk (hm : m.filesOk) (hn : m.rootKids.ids.Nodup)
     (hnone : (mergeRes S V m w.nextFile name kids st).2 = none) : (m.setRoot (mergeRoot2 S V w m name kids st)).filesOk := by
   obtain ⟨_, _, _, hlab, _, _, _⟩ := runParser_track S V strict buf w.nextId nmAutosar h kids st hr
   apply setRoot_ok m _ hm
@@ -868,32 +860,28 @@ theorem mergeRoot2_filesOk (hm : m.filesOk) (hn : m.rootKids.ids.Nodup) (hf : Me
   show FilesOk h2.files _
   apply renumItems_filesOk
   rw [hf2]
-  apply mergeElement_filesOk S V _ _ _ _ _ _ _ _ _ hn (nodup_of_lab hlab) hf.kids (hlab.filesOk []) _ _ hnone
+  apply mergeElement_filesOk S V _ _ _ _ _ _ _ _ _ hn (nodup_of_lab hlab) hm (hlab.filesOk []) _ _ hnone
   · intro g hg
-    rcases hf.root g hg with h1 | h1
-    · split
-      · exact h1
-      · exact List.mem_append_left _ h1
-    · subst h1
-      split
-      · rename_i hc; simpa using hc
-      · simp
+    split
+    · exact hg
+    · exact List.mem_append_left _ hg
   · split
     · rename_i hc; simpa using hc
     · simp
 end
 
 /-- **a merging load keeps `Inv`** (parent fields in step with the structure, local file sets within the effective set of the
-parent): for a model whose element ids are pairwise different and whose root carries the files of the model -/
+parent): for a model whose element ids are pairwise different.  Nothing is asked of the file ids (the new file `w.nextFile`
+need not be fresh: if the root already has it in its set, the set stays as it is) -/
 theorem opLoad_merge_inv (w : World) (k : Nat) (m : Model) (name : Bytes) (strict : Bool) (buf : Bytes)
-    (hm : w.models[k]? = some m) (hne : m.files.isEmpty = false) (hn : m.rootKids.ids.Nodup) (hf : MergeFiles m w.nextFile)
+    (hm : w.models[k]? = some m) (hne : m.files.isEmpty = false) (hn : m.rootKids.ids.Nodup)
     (hi : Inv w) : Inv (opLoad S V nmAutosar w k name strict buf).1 := by
   rcases opLoad_merge_cases S V nmAutosar w k m name strict buf hm hne with e | ⟨h, kids, st, m', hr, hnone, h1, h2, _, _, hmod, _⟩
   · rw [e]; exact hi
   · have hmem : m ∈ w.models := List.mem_of_getElem? hm
     exact ⟨wf_update w k m' _ hi.1 (wfM_of_eq _ m' h1 h2 (mergeRoot2_wfM S V nmAutosar w m name strict buf h kids st hr (hi.1 k m hm))) hmod,
       filesOk_update w k m' _ hi.2 (filesOk_of_eq _ m' h1 h2
-        (mergeRoot2_filesOk S V nmAutosar w m name strict buf h kids st hr (hi.2 m hmem) hn hf hnone)) hmod⟩
+        (mergeRoot2_filesOk S V nmAutosar w m name strict buf h kids st hr (hi.2 m hmem) hn hnone)) hmod⟩
 
 /-- the other models are untouched -/
 theorem opLoad_merge_others (w : World) (k : Nat) (m : Model) (name : Bytes) (strict : Bool) (buf : Bytes)
